@@ -35,9 +35,10 @@ fn res_class(r: &RunRes) -> &'static str {
 }
 
 /// All outputs agree except for f32 elements that differ at rounding level
-/// (|a-b| ≤ 2^-18 · largest magnitude in that output): a different summation order, not a
-/// different element being read.
-fn rounding_only(a: &[Canon], b: &[Canon]) -> bool {
+/// (|a-b| ≤ 2^-18 · max(largest magnitude in that output, `hint`), `hint` = 8 · product of the
+/// largest input magnitudes, which bounds the partial sums of a product-accumulate kernel even
+/// when the terms cancel): a different summation order, not a different element being read.
+fn rounding_only(a: &[Canon], b: &[Canon], hint: f32) -> bool {
     if a.len() != b.len() {
         return false;
     }
@@ -53,7 +54,7 @@ fn rounding_only(a: &[Canon], b: &[Canon]) -> bool {
         }
         let fx: Vec<f32> = x.bits.iter().map(|&b| f32::from_bits(b)).collect();
         let fy: Vec<f32> = y.bits.iter().map(|&b| f32::from_bits(b)).collect();
-        let scale = fx.iter().chain(&fy).filter(|v| v.is_finite()).fold(f32::MIN_POSITIVE, |m, v| m.max(v.abs()));
+        let scale = fx.iter().chain(&fy).filter(|v| v.is_finite()).fold(hint.max(f32::MIN_POSITIVE), |m, v| m.max(v.abs()));
         for (p, q) in fx.iter().zip(&fy) {
             if p.to_bits() == q.to_bits() {
                 continue;
@@ -66,10 +67,10 @@ fn rounding_only(a: &[Canon], b: &[Canon]) -> bool {
     true
 }
 
-fn compare(base: &RunRes, other: &RunRes, what: &str) -> Option<String> {
+fn compare(base: &RunRes, other: &RunRes, what: &str, hint: f32) -> Option<String> {
     match (base, other) {
         (Ok(Ok(a)), Ok(Ok(b))) => canon_diff(a, b).map(|d| {
-            if rounding_only(a, b) {
+            if rounding_only(a, b, hint) {
                 format!("rounding-only difference, {what}: {d}")
             } else {
                 format!("{what}: {d}")
@@ -192,6 +193,16 @@ fn generic_case(cx: &mut Ctx, name: &'static str, case_seed: u64) {
         cx.out.bucket(&format!("non-deterministic:{name}"));
         return;
     }
+    let hint: f32 = 8.0
+        * case
+            .inputs
+            .iter()
+            .flatten()
+            .map(|v| match v {
+                Value::FloatTensor(t) => t.iter().filter(|x| x.is_finite()).fold(1.0f32, |m, x| m.max(x.abs())),
+                _ => 1.0,
+            })
+            .product::<f32>();
     let base = run_vals(&*op, &case.inputs, case.n_out);
     if std::env::var("VERIF_DUMP").is_ok() {
         eprintln!("case: {}", case.describe());
@@ -206,7 +217,7 @@ fn generic_case(cx: &mut Ctx, name: &'static str, case_seed: u64) {
             let mut ins = case.inputs.clone();
             ins[k] = Some(variant(case.inputs[k].as_ref().unwrap(), var, &mut rng));
             let r = run_vals(&*op, &ins, case.n_out);
-            if let Some(f) = compare(&base, &r, &format!("input {k} as {var:?} view")) {
+            if let Some(f) = compare(&base, &r, &format!("input {k} as {var:?} view"), hint) {
                 fails.push(f);
             }
             cx.out.bucket(&format!("lay:{var:?}:{}:{}", res_class(&base), res_class(&r)));
@@ -220,7 +231,7 @@ fn generic_case(cx: &mut Ctx, name: &'static str, case_seed: u64) {
             ins[k] = Some(bcast_copy(&small, &sh));
             let bbase = run_vals(&*op, &ins, case.n_out);
             let r = run_with_bcast(&*op, &case.inputs, k, &small, &sh, case.n_out);
-            if let Some(f) = compare(&bbase, &r, &format!("input {k} as broadcast view over axes {axes:?}")) {
+            if let Some(f) = compare(&bbase, &r, &format!("input {k} as broadcast view over axes {axes:?}"), hint) {
                 fails.push(f);
             }
             cx.out.bucket(&format!("lay:Broadcast:{}:{}", res_class(&bbase), res_class(&r)));
@@ -231,7 +242,7 @@ fn generic_case(cx: &mut Ctx, name: &'static str, case_seed: u64) {
         let mut ins = case.inputs.clone();
         ins[k] = Some(stored);
         let r = run_vals(&*top, &ins, case.n_out);
-        if let Some(f) = compare(&base, &r, &format!("TransformInputs(permute input {k} by {perm:?})")) {
+        if let Some(f) = compare(&base, &r, &format!("TransformInputs(permute input {k} by {perm:?})"), hint) {
             fails.push(f);
         }
         cx.out.bucket(&format!("lay:TransformInputs:{}:{}", res_class(&base), res_class(&r)));
@@ -243,7 +254,7 @@ fn generic_case(cx: &mut Ctx, name: &'static str, case_seed: u64) {
             ins[k] = Some(variant(case.inputs[k].as_ref().unwrap(), var, &mut rng));
         }
         let r = run_vals(&*op, &ins, case.n_out);
-        if let Some(f) = compare(&base, &r, "all data inputs as non-contiguous views") {
+        if let Some(f) = compare(&base, &r, "all data inputs as non-contiguous views", hint) {
             fails.push(f);
         }
     }
